@@ -349,6 +349,9 @@ class Lib:
                 except AttributeError:
                     if not hasattr(obj, '__path__'):
                         raise
-                    obj = importlib.import_module(f'{obj.__name__}.{part}')     # a proto sub-package
+                    try:
+                        obj = importlib.import_module(f'{obj.__name__}.{part}')     # a proto sub-package
+                    except ModuleNotFoundError:
+                        raise AttributeError(f'{obj.__name__} has neither an attribute nor a sub-package {part!r}') from None
             return obj
         return None
